@@ -36,7 +36,7 @@ var authItems = []string{
 	"T0-honest", "T1-wrong-name", "T2-untrusted-root", "T3-client-cert-untrusted", "T4-no-client-cert", "T5-client-cert-if-given-untrusted", "T6-ip-literal-name",
 	"M-flip-byte", "M-replace-from-session1", "M-drop", "M-duplicate", "M-swap", "M-suite-strip", "M-serverhello-suite", "M-cert-substitute", "M7-refragment(legal)", "M7-warning-alert", "M-extend-body", "M-shorten-body", "clock-skew",
 }
-var authReach = []string{"victim-rejected", "allowed-completed", "honest-completed", "gm-cbc", "gm-gcm", "policy-request", "policy-require-any", "policy-verify-if-given", "policy-require-and-verify", "mitm-both-failed", "mitm-one-failed", "mitm-noop-completed", "session1-harvested", "rewrite-clienthello", "rewrite-serverhello", "rewrite-certificate", "rewrite-skx", "rewrite-ckx", "rewrite-other", "views-compared", "mitm-tls-path"}
+var authReach = []string{"victim-rejected", "allowed-completed", "honest-completed", "gm-cbc", "gm-gcm", "policy-request", "policy-require-any", "policy-verify-if-given", "policy-require-and-verify", "mitm-both-failed", "mitm-one-failed", "mitm-noop-completed", "session1-harvested", "rewrite-clienthello", "rewrite-serverhello", "rewrite-certificate", "rewrite-skx", "rewrite-ckx", "rewrite-other", "views-compared", "mitm-tls-path", "rewrite-new-session-ticket", "mitm-abbreviated-handshake"}
 
 func init() {
 	register(Family{Name: "tls-auth-impostor", Prop: "C08", ID: 801, Weight: 3, FaultNames: authItems, ReachNames: authReach, Run: runAuthImpostor})
@@ -868,7 +868,27 @@ func runAuthMITM(c *simkit.Choice, r *simkit.Rec) {
 			maxIdx = 5
 		}
 	}
-	rw.Index = c.Choose(maxIdx, simkit.LFault)
+	// tickets: the client keeps a session cache and the server issues tickets, so a
+	// NewSessionTicket travels in the clear after the client's Finished - the one
+	// message only the client's check of the server Finished protects.
+	// resumeFirst: an untouched first session fills the cache and the attacked
+	// session is an abbreviated handshake.
+	tickets := c.Bool(1, 2, simkit.LScen)
+	resumeFirst := false
+	if tickets {
+		if rw.Dir == 1 {
+			maxIdx++
+		}
+		resumeFirst = rw.Kind != "M-replace-from-session1" && c.Bool(1, 4, simkit.LScen)
+		if rw.Dir == 1 && !resumeFirst && c.Bool(1, 3, simkit.LFault) {
+			rw.Index = -1 // aim at the NewSessionTicket
+		}
+	}
+	if rw.Index < 0 {
+		rw.Index = maxIdx - 1
+	} else {
+		rw.Index = c.Choose(maxIdx, simkit.LFault)
+	}
 	switch rw.Kind {
 	case "M-suite-strip":
 		rw.Dir, rw.Index = 0, 0
@@ -879,12 +899,17 @@ func runAuthMITM(c *simkit.Choice, r *simkit.Rec) {
 	}
 	rw.Off = c.Choose(1<<16, simkit.LFault)
 	rw.Val = c.Choose(1<<16, simkit.LFault)
-	twoSessions := rw.Kind == "M-replace-from-session1"
+	twoSessions := rw.Kind == "M-replace-from-session1" || resumeFirst
+	var sharedCache gmtls.ClientSessionCache
+	if resumeFirst {
+		sharedCache = gmtls.NewLRUClientSessionCache(4)
+	}
+	var srvTicketCfg [2]*gmtls.Config // one server configuration for both sessions (ticket keys)
 	entC := simkit.NewStream(uint64(c.Choose(1<<31, simkit.LEntropy)) + 51)
 	entS := simkit.NewStream(uint64(c.Choose(1<<31, simkit.LEntropy)) + 53)
 	pol := simkit.Policy{StarveNode: -1, MeanGap: []int{0, 11}[c.Choose(2, simkit.LScen)]}
 	s := simkit.NewSim(c, pol, 4000000)
-	r.Config = fmt.Sprintf("mitm/%s/dir%d/auth%v/tls%v", rw.Kind, rw.Dir, clientAuth, tlsMode)
+	r.Config = fmt.Sprintf("mitm/%s/dir%d/auth%v/tls%v/tick%v/res%v", rw.Kind, rw.Dir, clientAuth, tlsMode, tickets, resumeFirst)
 	if tlsMode {
 		r.Reach(idx(authReach, "mitm-tls-path"))
 	}
@@ -923,6 +948,12 @@ func runAuthMITM(c *simkit.Choice, r *simkit.Rec) {
 					cfg.Certificates = []gmtls.Certificate{pki.GMStd("tlsclirsa")}
 				}
 			}
+			if tickets {
+				cfg.ClientSessionCache = sharedCache
+				if sharedCache == nil {
+					cfg.ClientSessionCache = gmtls.NewLRUClientSessionCache(4)
+				}
+			}
 			conn := gmtls.Client(cliRaw, cfg)
 			out.c.HsErr = conn.Handshake()
 			collectState(conn, &out.c)
@@ -955,6 +986,19 @@ func runAuthMITM(c *simkit.Choice, r *simkit.Rec) {
 			if tlsMode {
 				cfg = &gmtls.Config{Rand: entS, Time: simTime(s, 0), Certificates: []gmtls.Certificate{pki.GMStd("tlsrsa")}, CipherSuites: []uint16{0xc02f, 0x009c, 0x002f},
 					ClientAuth: p, ClientCAs: pki.Pool("rsaCA"), SessionTicketsDisabled: true}
+			}
+			if tickets {
+				cfg.SessionTicketsDisabled = false
+				if resumeFirst {
+					k := 0
+					if tlsMode {
+						k = 1
+					}
+					if srvTicketCfg[k] == nil {
+						srvTicketCfg[k] = cfg
+					}
+					cfg = srvTicketCfg[k]
+				}
 			}
 			conn := gmtls.Server(srvRaw, cfg)
 			out.sv.HsErr = conn.Handshake()
@@ -1020,13 +1064,18 @@ func runAuthMITM(c *simkit.Choice, r *simkit.Rec) {
 			r.Reach(idx(authReach, "rewrite-skx"))
 		case reftls.HsClientKeyExchange:
 			r.Reach(idx(authReach, "rewrite-ckx"))
+		case reftls.HsNewSessionTicket:
+			r.Reach(idx(authReach, "rewrite-new-session-ticket"))
 		default:
 			r.Reach(idx(authReach, "rewrite-other"))
 		}
 		r.Sig(uint64(msgType + 1))
 	}
+	if resumeFirst && (e2.c.State.DidResume || e2.sv.State.DidResume) {
+		r.Reach(idx(authReach, "mitm-abbreviated-handshake"))
+	}
 	site := "mitm/" + rw.Kind
-	r.Detail = map[string]interface{}{"rewrite": rw.Kind, "dir": rw.Dir, "index": rw.Index, "client_auth": clientAuth, "suites": fmt.Sprintf("%x", suiteList), "applied": applied, "changed": changed,
+	r.Detail = map[string]interface{}{"tickets": tickets, "resume_first": resumeFirst, "rewrite": rw.Kind, "dir": rw.Dir, "index": rw.Index, "client_auth": clientAuth, "suites": fmt.Sprintf("%x", suiteList), "applied": applied, "changed": changed,
 		"client_err": errStr(e2.c.HsErr), "server_err": errStr(e2.sv.HsErr), "client_complete": e2.c.HsDone, "server_complete": e2.sv.HsDone}
 	s.TaskPanics(r)
 	if r.Violation() != nil || r.HarnessErr != "" {
